@@ -25,6 +25,7 @@ func init() {
 }
 
 func c15r1(c *RC) {
+	c.Floor("deferred assignments to error results (exec)", deferredErrorClobber(c, c.P.FuncsIn("exec")), 1)
 	pr := c.P
 	opts := ErrFlowOpts{AllowBlank: false}
 	storeIface := pr.lookupIface("exec", "Store")
@@ -370,6 +371,7 @@ func c15r4(c *RC) {
 }
 
 func c15r5(c *RC) {
+	c15retryBudget(c)
 	pr := c.P
 	// find the functions calling openerAt.OpenAt through a struct field
 	n := 0
@@ -645,6 +647,63 @@ func c15r6(c *RC) {
 	open := c.MustFn("exec.(*memoryStore).Open")
 	if put == nil || open == nil {
 		return
+	}
+	// nil is the store's "absent" marker (get/Stat/Open test for it, and put's
+	// own already-stored test): what put stores must therefore never be nil — a
+	// committed partition with no bytes is stored as an empty, non-nil slice
+	{
+		var dataP string
+		for _, f := range put.Type.Params.List {
+			if tv := put.Pkg.Info.Types[f.Type]; tv.Type != nil && typeString(tv.Type) == "[]byte" && len(f.Names) > 0 {
+				dataP = f.Names[0].Name
+			}
+		}
+		var st *ast.AssignStmt
+		inspectNoLit(put.Body, func(n ast.Node) bool {
+			if a, ok := n.(*ast.AssignStmt); ok && len(a.Lhs) == 1 && len(a.Rhs) == 1 && expr(a.Rhs[0]) == dataP {
+				if _, isIx := a.Lhs[0].(*ast.IndexExpr); isIx {
+					st = a
+				}
+			}
+			return true
+		})
+		okNorm := false
+		if st != nil && dataP != "" {
+			flp := pr.Flow(put)
+			if loc, ok := flp.LocOf(st); ok {
+				okNorm = true
+				reached := false
+				flp.Walk(flp.Entry(), "", nil, Visitor{NoFacts: true,
+					Enter: func(from, to *cfg2Block, x string, s *Step) (string, bool) {
+						if v, ok := nonNilEdge(flp, from, to); ok && v == dataP {
+							return "nonnil", false
+						}
+						return x, false
+					},
+					Node: func(n ast.Node, x string, s *Step) (string, bool) {
+						if s.Block == loc.B && s.Idx == loc.I {
+							reached = true
+							if x != "nonnil" {
+								okNorm = false
+							}
+							return x, true
+						}
+						if a, ok := n.(*ast.AssignStmt); ok && len(a.Lhs) == 1 && expr(a.Lhs[0]) == dataP {
+							if _, isLit := a.Rhs[0].(*ast.CompositeLit); isLit {
+								return "nonnil", false
+							}
+							if k, isMake := a.Rhs[0].(*ast.CallExpr); isMake && expr(k.Fun) == "make" {
+								return "nonnil", false
+							}
+							return "", false
+						}
+						return x, false
+					}})
+				okNorm = okNorm && reached
+			}
+		}
+		c.Check(okNorm, put.QName()+"|stored-bytes-are-never-the-absent-marker", pr.Pos(put.Body.Pos()),
+			"put can store a nil byte slice: nil is what the store uses for \"no such partition\", so a partition committed with no bytes reports success and is then not found by Stat/Open (and can be committed again with other data)")
 	}
 	// put: the store `m.tasks[task][partition] = p` is dominated by the false
 	// edge of `m.tasks[task][partition] != nil` (which returns an error)
